@@ -311,10 +311,26 @@ def run(ctx):
         if r.rc != 0:
             raise RuntimeError("rehash failed\n" + r.text())
         saved_rehash = L0.save()     # the same array with a hash migration scheduled (every stripe flagged)
+        # the same array after two files were deleted and the deletion synced: one stripe in the middle is allocated to nobody
+        # (the array has more stripes than stripes that carry a check time), so a 100% quota exceeds what can be verified
+        L0.restore(saved)
+        for op in [("rm", "d1", "f2"), ("rm", "d2", "g1"), ("cmd", "sync")]:
+            r = X.apply_op(L0, op)
+            if r is not None and r.rc != 0:
+                raise RuntimeError("holed base failed\n" + r.text())
+        saved_holed = L0.save()
+        c_holed = L0.content()
     used = sorted(i for i, x in enumerate(c.info) if x is not None)
     n = len(used)
     ctx.set("stripes", n)
+    used_h = sorted(i for i, x in enumerate(c_holed.info) if x is not None)
+    if not (len(used_h) < c_holed.blockmax and max(used_h) == c_holed.blockmax - 1):
+        raise RuntimeError("holed base has no hole: %r of %d" % (used_h, c_holed.blockmax))
     jobs = []
+    for ages in itertools.product("OMN", repeat=len(used_h)):
+        assign = {pos: (a, False, a == "N") for pos, a in zip(used_h, ages)}
+        for plan, older in [("100", None), ("100", "20")] + ([] if tier == "quick" else [("100", "0"), ("50", "5"), ("90", "14"), (None, None)]):
+            jobs.append(("books-holed", (cfg, saved_holed, assign, plan, older, None, ctx.seed)))
     for ages in itertools.product("OMN", repeat=n):
         assign = {pos: (a, False, a == "N") for pos, a in zip(used, ages)}
         for plan, older in plans:
@@ -357,7 +373,7 @@ def run(ctx):
         evals += 1
         if r["nverified"]:
             ctx.nontrivial(repr(j))
-        if j[0] == "books":
+        if j[0].startswith("books"):
             ctx.outcome((j[1][3], j[1][4], r["nverified"], r["rc"]))
         for v in r["viols"]:
             ctx.violation("C15/%s/%s" % (j[0], v["kind"]), "%s: %s" % (v["kind"], v.get("where")),
@@ -375,7 +391,7 @@ def run(ctx):
 
 
 def dispatch(j):
-    return {"books": job, "seq": seq_job, "iter": iter_job, "unsynced": unsynced_job, "unsynced-silent": unsynced_silent_job}[j[0]](j[1])
+    return {"books": job, "books-holed": job, "seq": seq_job, "iter": iter_job, "unsynced": unsynced_job, "unsynced-silent": unsynced_silent_job}[j[0]](j[1])
 
 
 def replay(r):
@@ -384,8 +400,12 @@ def replay(r):
         for op in base_ops(cfg):
             X.apply_op(L0, op)
         saved = L0.save()
+        if r["kind"] == "books-holed":
+            for op in [("rm", "d1", "f2"), ("rm", "d2", "g1"), ("cmd", "sync")]:
+                X.apply_op(L0, op)
+            saved = L0.save()
     a = r["args"]
-    if r["kind"] == "books":
+    if r["kind"] in ("books", "books-holed"):
         assign = {int(k): tuple(v) for k, v in a[0].items()}
         out = job((cfg, saved, assign, a[1], a[2], tuple(a[3]) if a[3] else None, 0))
     elif r["kind"] == "seq":
